@@ -97,3 +97,27 @@ Proof.
   apply Forall_app. split; [|assumption].
   eapply Forall_impl; [|exact S2]. intros e He. eapply ext_ok_mono; eassumption.
 Qed.
+
+(** ---- the pipe skip loop ends after ceil (skip / 16 KiB) reads whatever they deliver *)
+Ltac Zify.zify_post_hook ::= Z.div_mod_to_equations.
+Lemma skip_loop_spec fuel : forall skip delivered calls req, 0 <= skip -> skip <= Z.of_nat fuel * JUNK ->
+  skip_loop fuel skip delivered calls req = (calls + (skip + JUNK - 1) / JUNK, req + skip, 0).
+Proof.
+  unfold JUNK. induction fuel as [|f IH]; intros skip delivered calls req H0 Hf; cbn [skip_loop]; unfold JUNK in *.
+  - assert (skip = 0) by lia. subst skip. change (0 <=? 0) with true. cbn iota. (f_equal; try lia); (f_equal; lia).
+  - destruct (skip <=? 0) eqn:E.
+    + apply Z.leb_le in E. assert (skip = 0) by lia. subst skip. (f_equal; try lia); (f_equal; lia).
+    + apply Z.leb_gt in E. rewrite IH by lia.
+      assert (Hq : (skip - Z.min skip 16384 + 16384 - 1) / 16384 + 1 = (skip + 16384 - 1) / 16384) by lia.
+      (f_equal; try lia); (f_equal; lia).
+Qed.
+
+(** whatever the reads deliver (nothing, parts, everything), the skip makes exactly ceil (skip / 16384) calls, asks for exactly
+    [skip] bytes in total, and ends *)
+Theorem pipe_skip_terminates skip delivered : 0 <= skip ->
+  pipe_skip skip delivered = ((skip + JUNK - 1) / JUNK, skip, 0).
+Proof.
+  intros H. unfold pipe_skip. rewrite skip_loop_spec; [reflexivity | exact H |].
+  unfold JUNK. rewrite Z2Nat.id by (pose proof (Z.div_pos skip 16384 H ltac:(lia)); lia).
+  pose proof (Z.mod_pos_bound skip 16384 ltac:(lia)). pose proof (Z.div_mod skip 16384 ltac:(lia)). lia.
+Qed.
